@@ -9,7 +9,7 @@
    is a hypothesis of the convergence theorem; these are explored on real runs by tools/props/C19.py. *)
 From Coq Require Import ZArith List Bool Arith Reals.
 From Coquelicot Require Import Coquelicot.
-From Yad Require Import Base Interp InterpTheorems InterpReal Conv ConvError.
+From Yad Require Import Base Interp InterpTheorems InterpReal Conv ConvGen ConvError.
 Import ListNotations.
 Open Scope nat_scope.
 
@@ -84,6 +84,16 @@ Theorem C19_prediction_error_partial k f If x E Le W Ws : (0 < x <= 1)%R -> (0 <
   (Rabs (conv_spec k If x - conv_spec k f x) <= (W + Rabs (r_loc k x)) * E + Ws * (Le * x + E))%R.
 Proof. exact (prediction_error_full k f If x E Le W Ws). Qed.
 Print Assumptions C19_prediction_error_partial.
+(* the same bound for the improper integral (kernels with ln^k(1-z)) *)
+Theorem C19_prediction_error_improper_partial k f If x E Le W Ws v w : (0 < x < 1)%R -> (0 <= Le)%R ->
+  (forall u, (x <= u <= 1)%R -> (Rabs (If u - f u) <= E)%R) ->
+  (forall u t, (x <= u <= 1)%R -> (x <= t <= 1)%R -> (Rabs ((If u - f u) - (If t - f t)) <= Le * Rabs (u - t))%R) ->
+  is_conv k If x v -> is_conv k f x w ->
+  is_RInt_gen (fun z => (Rabs (r_reg k z) / z)%R) (at_point x) (at_left 1) W ->
+  is_RInt_gen (fun z => (Rabs (r_sing k z) * ((1 - z) / (z * z)))%R) (at_point x) (at_left 1) Ws ->
+  (Rabs (v - w) <= (W + Rabs (r_loc k x)) * E + Ws * (Le * x + E))%R.
+Proof. exact (prediction_error_gen k f If x E Le W Ws v w). Qed.
+Print Assumptions C19_prediction_error_improper_partial.
 (* non-vacuity of the smoothness hypotheses: exp on three nodes *)
 Example C19_error_example t : (0 <= t <= 1)%R ->
   (Rabs (interp [0; 1 / 2; 1]%R exp t - exp t) <= (1 + lebesgue [0; 1 / 2; 1]%R t) * (3 * (1 - 0) ^ 3 / INR (fact 3)))%R.
